@@ -269,7 +269,7 @@ package goja
 // call-stack height differs from the current one: the walk over "this function's" frames stops above it.
 //@ define markerBelow = int(g.vm.tryStack[int(g.tryStackLen)-1].callStackLen) != len(g.vm.callStack)
 //@ func (*generator).enterNextFinallyFrame
-//@   props C08 C03
+//@   props C08 C03 C09
 //@   requires g != nil && g.vm != nil
 //@   requires @ownMarker && @markerBelow [marker-below-the-generator-frames]
 //@   loop 1 vars callStackLen int
@@ -279,6 +279,10 @@ package goja
 //@   site popTryFrame#1 requires len(vm.iterStack) == int(tf.iterLen) && len(vm.refStack) == int(tf.refLen) [iterators-closed-before-frame-is-popped]
 //@   exitvars tf *tryFrame, vm *vm, ex *Exception
 //@   ensures canContinue && ex == nil ==> tf != nil && tf.finallyPos == -1 && tf.catchPos == tryPanicMarker && vm.pc >= 0 && len(vm.iterStack) == int(tf.iterLen) [finally-entered-latched-with-iterators-closed]
+// The finally block runs in the scope it was written in: the registers recorded in its try frame (operand
+// stack height, variable scope, private environment) are put back, wherever the generator was suspended
+// (C09: local variables survive; the block must not see the scope of an inner block it was suspended in).
+//@   ensures canContinue && ex == nil ==> vm.sp == int(tf.sp) && vm.stash == tf.stash && vm.privEnv == tf.privEnv [finally-runs-in-the-scope-of-its-frame]
 //@   ensures g.tryStackLen == old(g.tryStackLen) && @ownMarker [own-marker-in-place]
 //@   ensures_abrupt @ownMarker [own-marker-still-in-place]
 //@   ensures_abrupt g.tryStackLen == old(g.tryStackLen) [heights-record-kept]
